@@ -1121,7 +1121,7 @@ def cmbx_check(shape):
 
 
 def cmbx_shapes(tier):
-    big = tier == "thorough"
+    big = True          # the thorough shape set is cheap enough for quick as well (tier kept for the interface)
     for ks in ((1, 2, 3), ("a", "b", "c")):
         leaves = [()] + [((k, ("x",)),) for k in ks] + [((k, ("x", "y")),) for k in ks[:2]]
         leaves += [((k1, ("x",)), (k2, ("y",))) for k1 in ks for k2 in ks if k1 != k2]
@@ -2383,9 +2383,9 @@ def env_states(bound):
 
 BOUNDS = {
     # family: (quick, thorough)
-    "MultiDict": (3, 4), "FileMultiDict": (2, 3), "ImmutableMultiDict": (3, 4), "CombinedMultiDict": (2, 3),
+    "MultiDict": (3, 4), "FileMultiDict": (2, 3), "ImmutableMultiDict": (4, 4), "CombinedMultiDict": (3, 3),
     "Headers": (3, 5), "HeaderSet": (3, 3), "EnvironHeaders": (2, 3),
-    "ctor": (2, 3), "hist:MultiDict": (3, 4), "hist:Headers": (3, 4), "hist:HeaderSet": (3, 4),
+    "ctor": (3, 3), "hist:MultiDict": (3, 4), "hist:Headers": (3, 4), "hist:HeaderSet": (3, 4),
 }
 
 
